@@ -218,9 +218,10 @@ def merge_result(agg, index, case, res):
     for s in res.get('states') or ():
         agg['states'].add(s)
     d = res.get('digest')
-    agg['digests'][index] = d
+    if os.environ.get('VERIF_KEEP_DIGESTS'):
+        agg['digests'][index] = d            # only the determinism self-test needs every digest
     if res.get('nontrivial'):
-        agg['nontrivial_digests'].add(d)
+        agg['nontrivial_digests'].add(int(str(d)[:14], 16) if d and all(ch in '0123456789abcdef' for ch in str(d)[:14]) else hash(d))
         if len(agg['samples']) < 2:
             agg['samples'].append({'index': index, 'case': case})
     for v in res.get('violations') or ():
